@@ -132,7 +132,7 @@ class Check:
                 violations.append(i)
         bad_keys = {i.key for i in self.instances if not i.ok}
         stale = [k for (p, k) in kn if p == self.prop and k not in bad_keys]
-        scratch = os.path.realpath(self.repo.root) != "/repo"
+        scratch = os.path.realpath(self.repo.root) != "/repo" or bool(os.environ.get("O2O_SCRATCH_EVIDENCE"))
         ev_root = os.path.join(VERIF, ".cache", "scratch-evidence") if scratch else os.path.join(VERIF, "evidence")
         replay_dir = os.path.join(ev_root, "replay")
         for i in known_hits:
